@@ -97,14 +97,26 @@ func (t *StandardRoundTimer) background(ctx context.Context) {
 
 	var timerElapsed, cancelTimer chan struct{}
 
+	// A start request that was received while the previous timer's cancellation
+	// had been signaled but not yet observed.
+	var pendingReq *startTimerRequest
+
 	for {
 		// Wait for signal to start timer.
 		gchan.VerifPoint(ctx, "roundtimer.idle")
-		select {
-		case <-ctx.Done():
-			return
+		var req startTimerRequest
+		if pendingReq != nil {
+			req, pendingReq = *pendingReq, nil
+		} else {
+			select {
+			case <-ctx.Done():
+				return
 
-		case req := <-t.startTimerRequests:
+			case req = <-t.startTimerRequests:
+				// Okay.
+			}
+		}
+		{
 			// We assume the timer is always stopped by the time we receive a valid start timer request.
 			// If the timer is stopped, then we are safe to reset.
 			timer.Reset(req.Dur)
@@ -135,7 +147,13 @@ func (t *StandardRoundTimer) background(ctx context.Context) {
 
 		case <-timer.C:
 			// The timer elapsed.
-			close(timerElapsed)
+			select {
+			case <-cancelTimer:
+				// But it was cancelled before we observed the elapse,
+				// and a cancelled timer must not report that it elapsed.
+			default:
+				close(timerElapsed)
+			}
 			timerElapsed = nil
 			cancelTimer = nil
 
@@ -156,10 +174,29 @@ func (t *StandardRoundTimer) background(ctx context.Context) {
 			timerElapsed = nil
 			cancelTimer = nil
 
-		case <-t.startTimerRequests:
-			panic(errors.New(
-				"BUG: new timer requested before previous timer elapsed or was cancelled",
-			))
+		case req := <-t.startTimerRequests:
+			select {
+			case <-cancelTimer:
+				// The previous timer was cancelled before this request was made;
+				// the select only happened to pick the new request first.
+			default:
+				panic(errors.New(
+					"BUG: new timer requested before previous timer elapsed or was cancelled",
+				))
+			}
+
+			// Same handling as the cancel case, and then serve the request.
+			if !timer.Stop() {
+				select {
+				case <-timer.C:
+					// Okay.
+				case <-ctx.Done():
+					return
+				}
+			}
+			timerElapsed = nil
+			cancelTimer = nil
+			pendingReq = &req
 		}
 	}
 }
